@@ -3,7 +3,7 @@
 From Coq Require Import Permutation.
 From VV Require Import Model.Base Model.Pattern Model.CodonTable Model.BgValidate Proofs.BgValidateProofs
   Model.Gpo Model.PpeSeq Spec.LiftSpec Proofs.GpoTop Proofs.PpeLiftProofs Model.Transcript Model.CodonsInRange Proofs.CodonsInRangeProofs
-  Model.Seq Model.Vcf Model.PyLoop Generated.KernelsLift Proofs.KernelLiftEquiv.
+  Model.Seq Model.Vcf Model.PyLoop Generated.KernelsLift Proofs.KernelLiftEquiv Generated.KernelsAnnot Proofs.KernelAnnotEquiv.
 
 (* the loop of validate_background_variants refuses exactly when some variant starting in the targeton is counted as
    protein changing and force-bg-ns is off, or is also length changing and force-bg-indels is off *)
@@ -92,6 +92,11 @@ Theorem C15_codon_indices_match_source : forall e s r, range_valid (x_range e) =
   k_exon_get_codon_indices e s r = codon_indices s e r.
 Proof. exact k_exon_get_codon_indices_eq. Qed.
 
+(* the key duplicate codons are dropped by (CdsSeq.ext_start: the first of the prefix positions when there is a prefix, else the start),
+   translated from cds_seq.py on every run, is the model's whenever a prefix comes with its positions - which _get_cds_seq asserts *)
+Theorem C15_codon_key_matches_source : forall c, (c_prefix c = [] \/ c_prefix_pos c <> []) -> k_cds_ext_start c = Ok (ext_start c).
+Proof. exact k_cds_ext_start_eq. Qed.
+
 Print Assumptions C15_refusal_iff.
 Print Assumptions C15_changes_iff.
 Print Assumptions C15_refusal_rule.
@@ -103,3 +108,4 @@ Print Assumptions C15_codons_in_range_complete.
 Print Assumptions C15_codons_in_range_no_adjacent_dup.
 Print Assumptions C15_codons_example.
 Print Assumptions C15_codon_indices_match_source.
+Print Assumptions C15_codon_key_matches_source.
